@@ -12,6 +12,7 @@ TABLE = [
  ("eventsE", "EventsECalls","EventsMenu", "GenesisRoute", '{"eth"}',        "Mods0",         (1, 3, 1), (1, 4, 2)),
  ("funds",   "FundsCalls",  "FundsMenu",  "GenesisFunds", '{"eth", "btc"}', "Mods0",         (2, 3, 1), (2, 4, 2)),
  ("private", "PrivCalls",   "PrivMenu",   "Genesis0",     '{"eth"}',        "Mods0",         (2, 3, 1), (2, 4, 2)),
+ ("privcase","PrivCalls",   "PrivMenu",   "Genesis0",     '{"eth"}',        "Mods0",         (2, 3, 1), (2, 3, 1)),
  ("percode", "PcCalls",     "PcMenu",     "GenesisPC",    '{"eth"}',        "Mods0",         (2, 3, 1), (5, 3, 2)),
  ("registry","RegCalls",    "RegMenu",    "Genesis0",     '{"eth"}',        "Mods0",         (3, 2, 1), (4, 2, 2)),
  ("admin",   "AdmCalls",    "AdmMenu",    "GenesisAdm",    '{"eth"}',        "Mods0",         (2, 3, 1), (5, 3, 2)),
@@ -25,7 +26,7 @@ TABLE = [
  ("stake",   "StakeCalls",  "StakeMenu",  "GenesisStake", '{"eth"}',        "ModsStake",     (3, 3, 1), (4, 3, 2)),
 ]
 for name, calls, menu, gen, den, mods, q, t in TABLE:
-    addrmode = "percode" if name == "percode" else "simple"
+    addrmode = "percode" if name == "percode" else "casepair" if name == "privcase" else "simple"   # casepair: like simple for the specification (all addresses distinct)
     for tier, (maxtx, fuel, level) in (("quick", q), ("thorough", t)):
         with open(os.path.join(ROOT, "spec", "mc", f"MC_Chain_{name}_{tier}.cfg"), "w") as f:
             f.write(f"""SPECIFICATION Spec
